@@ -198,6 +198,22 @@ class Prov:
                 elif d.value is not None and d.kind != "param":
                     self._discover(fn, sc, d.value, d.cnode, stop, multi, seen)
 
+    _CURSOR = ("read", "readline", "readinto", "read1", "seek", "tell")
+
+    def _refuse_cursor(self, fn, local, value):
+        """A value read from a local stream that is consumed piecewise (r.read(n) / r.seek(..), or several reads): what a read returns depends on
+        the reads before it, which an expression that merely names the call cannot say - expansion through it is refused (UNDECIDED)."""
+        for c in ast.walk(value):
+            if isinstance(c, ast.Call) and isinstance(c.func, ast.Attribute) and c.func.attr in self._CURSOR and isinstance(c.func.value, ast.Name) \
+                    and c.func.value.id in local:
+                r = c.func.value.id
+                calls = [x for x in ast.walk(fn.node) if isinstance(x, ast.Call) and isinstance(x.func, ast.Attribute) and x.func.attr in self._CURSOR
+                         and isinstance(x.func.value, ast.Name) and x.func.value.id == r]
+                if len(calls) > 1 or any(x.args or x.keywords for x in calls if x.func.attr != "read") or any(x.func.attr == "seek" for x in calls) \
+                        or any((x.args and not (isinstance(x.args[0], ast.Constant) and x.args[0].value in (None, -1))) for x in calls if x.func.attr == "read"):
+                    raise AnalysisError(f"{fn.qualname}: `{r}` is a stream consumed piecewise ({len(calls)} read/seek calls); the value of "
+                                        f"`{norm(c)[:40]}` depends on the reads before it (idiom not understood, UNDECIDED)")
+
     def expand(self, fn, sc, expr, use_node, depth=0, stop=()):
         """Set of normalised strings: `expr` with local names replaced by the
         expressions defining them at use_node (recursively).  Names in `stop`
@@ -256,6 +272,7 @@ class Prov:
                         if not prevs:
                             alts.add(nm)
                         continue
+                    self._refuse_cursor(fn, local, d.value)
                     key = (fn.qualname, nm, d.cnode.id)
                     if key in self._stack:
                         alts.add(f"LOOP({nm})")      # loop-carried value
